@@ -9,6 +9,7 @@ import (
 	"regexp"
 	"strconv"
 	"strings"
+	"time"
 	"unicode/utf8"
 
 	"github.com/hedzr/is/term/color"
@@ -59,7 +60,7 @@ func encIntIn(s []int, x int) bool {
 }
 
 // encScanSGR: stream of SGR parameters / line breaks, stripped text, number of raw control
-// bytes that are not part of an SGR sequence (ESC, C0 other than LF, DEL).
+// characters that are not part of an SGR sequence (ESC, C0 other than LF, DEL, C1 in either encoding).
 func encScanSGR(p []byte) (stream []int, text []byte, rawctl int) {
 	stream = []int{}
 	for i := 0; i < len(p); {
@@ -103,18 +104,39 @@ func encScanSGR(p []byte) (stream []int, text []byte, rawctl int) {
 		}
 		if b == '\n' {
 			stream = append(stream, -1)
-		} else if b < 0x20 || b == 0x7f {
+			text = append(text, b)
+			i++
+			continue
+		}
+		// a control character a terminal acts upon: C0, DEL, and the C1 range - as code points U+0080..U+009F or
+		// as single bytes 0x80..0x9f outside any UTF-8 sequence (0x9b / U+009B is CSI, the short form of ESC [)
+		ctl, w := encControlAt(string(p[i:min(i+4, len(p))]), 0)
+		if ctl {
 			rawctl++
 		}
-		text = append(text, b)
-		i++
+		text = append(text, p[i:i+w]...)
+		i += w
 	}
 	return
 }
 
 // encTSOK: is this the timestamp field of the record?  The per-record check logs with a fixed
 // instant; the history component (real entry points, time.Now) swaps in a window test.
-var encTSOK = func(field string) bool { return strings.Contains(field, encTS.UTC().Format("15:04:05")) }
+var encTSOK = encTSFixed
+
+func encTSFixed(field string) bool { return strings.Contains(field, encTS.UTC().Format("15:04:05")) }
+
+// encTSWindow: the record was issued by a logging call between t0 and t1 (wall clock of the library).
+func encTSWindow(t0, t1 time.Time) func(string) bool {
+	return func(field string) bool {
+		for t := t0.Add(-time.Second); !t.After(t1.Add(time.Second)); t = t.Add(time.Second) {
+			if strings.Contains(field, t.Format("15:04:05")) || strings.Contains(field, t.UTC().Format("15:04:05")) {
+				return true
+			}
+		}
+		return false
+	}
+}
 
 var encCallerRe = regexp.MustCompile(`^(.*) ([^=\s]*):(\d+) (\S+)$`)
 var encCallerTailRe = regexp.MustCompile(`^(.*):(\d+) (\S+)$`)
